@@ -27,6 +27,7 @@ var streams = []string{
 	"id:d\n\ndata:z\n\nid:e", // an ID in a line that is never terminated
 	"id:f\nid:g\n\nid:h\n",   // last one pending
 	"retry:1\nid:r\n\n: c\n", // trailing comment
+	"id:n\x00\ndata:w\n\n",    // an ID with NUL inside an event that IS dispatched: the remembered ID stays
 	"",
 }
 
@@ -251,7 +252,7 @@ func Scenarios(tier string) []run.Scenario {
 		add(Params{BodyKind: bk, MaxAttempts: n - 1 + 1, Outcomes: outcomes[:9]})
 	}
 	// longer histories over a smaller alphabet: the value persists across any number of failures
-	small := []ch.Outcome{{Kind: "fail"}, {Kind: "ok", Stream: "id:a\n\n", End: "err"}, {Kind: "ok", Stream: "id:\n\n", End: "eof"}, {Kind: "ok", Stream: "data:x\n\n", End: "eof"}, {Kind: "ok", Stream: "id:d\n\nid:e", End: "eof"}}
+	small := []ch.Outcome{{Kind: "fail"}, {Kind: "ok", Stream: "data:v\nid:\x00\n\n", End: "eof"}, {Kind: "ok", Stream: "id:a\n\n", End: "err"}, {Kind: "ok", Stream: "id:\n\n", End: "eof"}, {Kind: "ok", Stream: "data:x\n\n", End: "eof"}, {Kind: "ok", Stream: "id:d\n\nid:e", End: "eof"}}
 	add(Params{BodyKind: "getbody", MaxAttempts: n + 3, Outcomes: small})
 	// a long stream: an ID, then ~10 KB of events without one (the client's read buffer is recycled many times)
 	var sb strings.Builder
